@@ -787,7 +787,7 @@ def t1_typestate(chk):
     """typestate analysis of compile() (rules/compile_ts.py): end-to-end bookkeeping invariants for an arbitrary
     module over every outcome of every component call"""
     from rules import compile_ts
-    compile_ts.ts_rule(chk, 'C07.T1', ['escape', 'accounted', 'status-effect', 'once', 'verbatim', 'failed-pairing', 'stale-failure', 'failure-forgotten', 'missing-reported', 'own-key'])
+    compile_ts.ts_rule(chk, 'C07.T1', ['escape', 'accounted', 'status-effect', 'once', 'verbatim', 'failed-pairing', 'stale-failure', 'failure-forgotten', 'missing-reported', 'borrow-status', 'own-key'])
 
 
 
@@ -813,6 +813,16 @@ def r_absent_values_C07_R12(chk):
     common.no_value_taken_from_an_absent_operand(chk, 'C07.R12', sorted(r for r in chk.model.modules if r.startswith('pysmi/')), floor=2)
 
 
+
+def r13_handlers_do_something(chk):
+    """a semantic defect that is caught and dropped is a module silently missing a default, a revision, a status"""
+    # code generators, parser, lexer: here a dropped exception is a silently wrong document.  (The component protocol
+    # code - compile(), readers, searchers, writers - legitimately passes over "not found" / clean-up failures; those
+    # handlers are judged by the CFG rules and the typestate analysis.)
+    rels = sorted(r for r in chk.model.modules if r.startswith(('pysmi/codegen/', 'pysmi/parser/', 'pysmi/lexer/')))
+    common.handlers_do_something(chk, 'C07.R13', rels, floor=5)
+
+
 RULES = [r9_wellformedness, r1_containment, r2_no_package_raise_escapes, r3_status_values, r4_no_silent_drop, r4b_popped_name_accounted,
          r5_failed_result_pairing, r6_single_writer_site, r7_foreign_exceptions,
-         r8_closure_discovery, t1_typestate, r10_generators_start_clean, r11_format_arity, r_absent_values_C07_R12]
+         r8_closure_discovery, t1_typestate, r10_generators_start_clean, r11_format_arity, r_absent_values_C07_R12, r13_handlers_do_something]
